@@ -344,7 +344,13 @@ func (p *Process) onEvent(ev Event) {
 		p.apply(ev)
 		return
 	}
-	lag := time.Duration(s.T.Next(s.Cfg.CacheLagMaxMs+1)) * time.Millisecond
+	var lag time.Duration
+	if ev.Commut {
+		// no draw: the order in which these events arrive is not defined
+		lag = time.Duration(s.Cfg.CacheLagMaxMs) * time.Millisecond
+	} else {
+		lag = time.Duration(s.T.Next(s.Cfg.CacheLagMaxMs+1)) * time.Millisecond
+	}
 	if _, ok := p.pend[ev.Key]; !ok {
 		p.pendKeys = insertKeySorted(p.pendKeys, ev.Key)
 	}
